@@ -47,7 +47,7 @@ def __getattr__(name: str):
     """Let pickle find LegacyExpr in a process that has not built the pool yet."""
     if name == "LegacyExpr":
         return _deprecated_class()
-    if name in ("UserFunctorExpr", "UserScaledPower"):
+    if name in ("UserFunctorExpr", "UserScaledPower", "FormFactor"):
         _user_classes()
         return globals()[name]
     raise AttributeError(name)
@@ -81,7 +81,15 @@ def _user_classes():
         def evaluate(self) -> sp.Expr:
             return self.base**self.power
 
-    for cls in (UserFunctorExpr, UserScaledPower):
+    @unevaluated
+    class FormFactor(sp.Expr):  # a user's own class that happens to be named like a library class
+        s: Any
+        scale: Any = 1
+
+        def evaluate(self) -> sp.Expr:
+            return sp.exp(-self.s / self.scale)
+
+    for cls in (UserFunctorExpr, UserScaledPower, FormFactor):
         cls.__module__ = __name__
         cls.__qualname__ = cls.__name__
         globals()[cls.__name__] = cls
@@ -189,6 +197,7 @@ def library_pool(with_doit: bool = True) -> list[dict]:  # noqa: PLR0914, PLR091
     add("user:required non-sympy argument", functor_cls(x, ps.BreakupMomentumSquared(s, m1, m2), functor=user_functor))
     add("user:sympy field after defaulted attribute", scaled_cls(x + y, "km", 3))
     add("user:nested", 1 + scaled_cls(functor_cls(x, y, user_functor), power=sp.Rational(1, 2)) ** 2)
+    add("user:same name as library class", globals()["FormFactor"](s, 3) + ff.FormFactor(s, m1, m2, 1, d))
     add("ArrayElement", ae.ArrayElement(p0, (0, 1)))
     shaped = ae.ArraySymbol("P", shape=(10, 4))
     add("ArraySlice(step)", ae.ArraySlice(p0, (slice(None, None, 2), 0)))
